@@ -510,6 +510,16 @@ def cmd_check(args):
 
 def cmd_replay(args):
     import queries
+    if open(args.file).readline().startswith('#vf-c20'):
+        # C20 findings are confirmed by the native thread driver, not by a harness replay
+        import c20
+        sc = Scratch()
+        try:
+            conf = c20.confirm(ROOT, sc.src, sc.dir)
+            print(json.dumps(conf, indent=1, default=str))
+            return 1 if (conf.get('tsan', ('', ''))[0] == 'race' or conf.get('results', ('', ''))[0] == 'mismatch') else 0
+        finally:
+            sc.close()
     hdr = {}
     for l in open(args.file):
         if l.startswith('#vf-replay'):
